@@ -36,6 +36,14 @@ CHECKS = {
                      "point is recorded under catch_unwind over texts with 1-4 byte characters and TLC judges every raw offset; real VM traces are validated step by step.",
                 note="Memory safety itself is not modelled (the model says where the Rust code would panic). Bounds: unrestricted grammar to 3 nodes + shapes + random, texts up to length 3. " + TCB,
                 technique="TLC model checking of the VM model on real programs + trace validation of API records and VM traces"),
+    "C06": dict(level="exploration", ref="6 C06",
+                text="Contract.tla gives the compile contract (Ok or Err, error position <= length, time budget) and the input model: every sequence of up to N "
+                     "fragments of a 111-fragment vocabulary (exported by TLC), an amplification family opener^k body closer^k (k up to 100000), random longer "
+                     "sequences and mutations of valid spellings; each input is compiled in a resource-limited child process from a debug build (overflow checks on), "
+                     "a dead child being the outcome of the input it was processing; TLC checks the contract on every recorded outcome.",
+                note="Honest level: exploration - a TLA+ model does not predict panics, overflow, allocation or native stack depth; it supplies the space and the contract. "
+                     "Limits: 2 GiB address space, CPU limit per child, 5 s + 1 ms/byte per input.",
+                technique="spec-defined input space and contract; sandboxed compilation; trace validation of outcomes by TLC"),
     "C07": dict(level="model_checking", ref="6 C07",
                 text="Per (pattern, text, offset) the unlimited search with hook statistics and the same search under limits {0,1,2,3,5,10,100,10^6,B-1,B} are recorded; "
                      "TLC runs VM.tla on the real program under each limit and requires the recorded outcome, the exact threshold B, no runtime error by default "
@@ -96,6 +104,19 @@ CHECKS = {
                      "the lemma Search(LitSeq(s)) = str::find is checked by TLC on the same cases.",
                 note="Exhaustive to length 2 (quick) / 3 (thorough) over 24 symbols incl. all specials and 2-4 byte characters; longer strings sampled. " + TCB,
                 technique="TLA+ model of escape + trace validation of recorded escapes and searches"),
+    "C18": dict(level="model_checking", ref="6 C18",
+                text="Conc.tla: N threads x 2 calls on one shared program, one action per VM instruction, the inner engine's cache pool as acquire/run/release; TLC checks "
+                     "for all interleavings that every call returns its sequential result, caches are exclusive, no deadlock (negative controls: broken pool, hoisted slots). "
+                     "Binding: static Send+Sync+Clone assertion; barrier-started stress on shared references and clones whose result sets are validated against RefSem.",
+                note="The design is model-checked (2 threads quick, 3 thorough); the binding is exploration: real schedules are sampled (2..16 threads), not enumerated. " + TCB,
+                technique="TLC model checking of the concurrency model + stress recording validated by TLC"),
+    "C19": dict(level="model_checking", ref="6 C19",
+                text="Spell.tla generates, for every base pattern, the documented-equivalent spellings (13 styles: free spacing and comments, named/numbered/relative "
+                     "references, inline vs scoped flags, hex/unicode escapes, possessive vs atomic, \\A \\z); every spelling is compiled and run over all cells; TLC "
+                     "requires rows = RefSem of the base pattern and the same parser tree as the plain spelling.",
+                note="Generative: only spellings Spell.tla produces are covered (the parser is not modelled as a recogniser). Findings F10 (inline flags leaking out of capturing "
+                     "groups) and F11 (blank inside a class under (?x)) are recorded, probed by witnesses and kept out of the generated styles. " + TCB,
+                technique="TLA+ generative model of the concrete syntax + trace validation of recorded searches and parser trees"),
     "C20": dict(level="model_checking", ref="6 C20",
                 text="SaveLogOps.tla transcribes vm.rs::State operation by operation next to the whole-state-copy model; TLC checks the refinement invariant over ALL "
                      "operation sequences up to the bound; every history TLC generated (one per reached state) and long simulated histories are replayed into the "
